@@ -196,7 +196,7 @@ def run(mod, tier, seed, replay=None):
         report("property-fails-on-implementation", small, o, m2)
     dset = {i for i, _ in dfail}
     # C failures without D failure
-    for i in [i for i in cbad if i not in dset][:3]:
+    for i in [i for i in cbad if i not in dset][:(1 if dfail else 3)]:
         case, obs = cases[i], obs_by_id[i]
         found = False
         if hasattr(mod, "intensify"):
@@ -207,17 +207,24 @@ def run(mod, tier, seed, replay=None):
                     report("property-fails-on-implementation", c2, o2, m2); found = True
                     break
         if not found:
-            def cfailing(c):
-                o = safe_run(mod, c)
-                t = mod.coq_term(c, o)
-                b, _, _ = coqrun.run_cases(pid + "_shrink", mod.IMPORTS, [(0, t)])
-                return bool(b)
             small = case
-            if getattr(mod, "SHRINK_C", True):
+            if getattr(mod, "SHRINK_C", True) and hasattr(mod, "shrink_candidates"):
                 try:
-                    small = shrink(mod, case, cfailing)
+                    for _round in range(6):
+                        cands = list(mod.shrink_candidates(small))[:48]
+                        if not cands:
+                            break
+                        tt = []
+                        for j, c in enumerate(cands):
+                            t = mod.coq_term(c, safe_run(mod, c))
+                            if t is not None:
+                                tt.append((j, t))
+                        b, _, _ = coqrun.run_cases(pid + "_shrink", mod.IMPORTS, tt, shard=8)
+                        if not b:
+                            break
+                        small = cands[min(b)]
                 except Exception:
-                    small = case
+                    pass
             o = safe_run(mod, small)
             shown = None
             if hasattr(mod, "show_term"):
@@ -226,8 +233,8 @@ def run(mod, tier, seed, replay=None):
                 except Exception as e:
                     shown = f"(could not evaluate: {e})"
             report("correspondence-broken", small, o,
-                   [f"model {mod.IMPORTS.split('Import')[-1].strip()} and implementation disagree on this case; "
-                    f"no property failure found by the direct check: no-failing-input-found"],
+                   [f"{getattr(mod, 'CORR_NAME', 'Corr_' + pid)}: model and implementation disagree on this case; "
+                    f"the direct check found no property failure: no-failing-input-found"],
                    {"obligation": getattr(mod, "CORR_NAME", f"Corr_{pid}.model_matches_impl"), "model_output": shown})
     if proof_fail is not None:
         nrep += 1
